@@ -2,4 +2,5 @@ let () =
   match Array.to_list Sys.argv with
   | _ :: "arith" :: _ -> R_arith.run ()
   | _ :: "iter" :: fence :: fill :: _ -> R_iter.run (int_of_string fence) (fill = "1")
+  | _ :: "pool" :: _ -> R_pool.run ()
   | _ -> prerr_endline "usage: replay <topic> [args]"; exit 2
